@@ -126,14 +126,25 @@ def _run_model(calls, shards=8):
     import threading
     res = [None] * len(procs)
 
+    limit = int(os.environ.get("VERIF_MODEL_TIMEOUT", "1200"))
+
     def work(k):
         p, data = procs[k]
-        res[k] = p.communicate(data)[0]
+        try:
+            res[k] = p.communicate(data, timeout=limit)[0]
+        except subprocess.TimeoutExpired:
+            # a model evaluation that does not come back (e.g. a verified exhaustive search on an instance the implementation
+            # should never have produced) must end the check with a verdict, never hang it
+            p.kill()
+            p.communicate()
+            res[k] = None
     th = [threading.Thread(target=work, args=(k,)) for k in range(len(procs))]
     [t.start() for t in th]
     [t.join() for t in th]
     parsed = []
     for k, ch in enumerate(chunks):
+        if res[k] is None:
+            raise RuntimeError("model driver did not finish within %d s (entries: %s)" % (limit, sorted({n for n, _ in ch})[:8]))
         lines = res[k].split("\n")
         if len(lines) < len(ch):
             raise RuntimeError("model driver produced %d lines for %d calls (crash?)" % (len(lines), len(ch)))
